@@ -35,7 +35,7 @@ impl Grp {
 }
 
 /// What the element type of a container under test must provide to the harness.
-pub trait Item: Sized + Debug + Hash + PartialEq + Default + Clone + 'static {
+pub trait Item: Sized + Debug + std::fmt::Display + Hash + PartialEq + Default + Clone + 'static {
     const W: usize;
     /// Read the ids through plain field access (no callback) and validate them (V2).
     fn grp(&self) -> Grp;
@@ -165,6 +165,15 @@ pub trait Kind<X: Item>: 'static {
     fn v_observe_debug(v: &Self::V) -> usize;
     fn v_observe_hash(v: &Self::V) -> u64;
     fn v_observe_eq(a: &Self::V, b: &Self::V) -> bool;
+    fn v_observe_display(v: &Self::V) -> usize;
+    /// `v.map(f)` with `f: FnMut(X) -> X`
+    fn v_map<F: FnMut(X) -> X>(v: Self::V, f: F) -> Self::V;
+    /// `a.zip(b).map(|(x, y)| f(x, y))`
+    fn v_zip_map<F: FnMut(X, X) -> X>(a: Self::V, b: Self::V, f: F) -> Self::V;
+    /// `a.map2(b, f)`
+    fn v_map2<F: FnMut(X, X) -> X>(a: Self::V, b: Self::V, f: F) -> Self::V;
+    /// `V::<u32>::from_slice(s)` read back through the public fields in declaration order.
+    fn from_slice_u32(s: &[u32]) -> Vec<u32>;
 
     // --- ground truth: public fields in declaration order (Rust field semantics) ---
     fn v_field(v: &Self::V, i: usize) -> &X;
@@ -257,6 +266,19 @@ macro_rules! kind {
                 h.finish()
             }
             fn v_observe_eq(a: &Self::V, b: &Self::V) -> bool { a == b }
+            fn v_observe_display(v: &Self::V) -> usize {
+                use std::fmt::Write;
+                let mut s = crate::exec::NullWriter(0);
+                let _ = write!(s, "{}", v);
+                s.0
+            }
+            fn v_map<F: FnMut(X) -> X>(v: Self::V, f: F) -> Self::V { v.map(f) }
+            fn v_zip_map<F: FnMut(X, X) -> X>(a: Self::V, b: Self::V, mut f: F) -> Self::V { a.zip(b).map(|(x, y)| f(x, y)) }
+            fn v_map2<F: FnMut(X, X) -> X>(a: Self::V, b: Self::V, f: F) -> Self::V { a.map2(b, f) }
+            fn from_slice_u32(s: &[u32]) -> Vec<u32> {
+                let v = vek::vec::repr_c::$Vec::<u32>::from_slice(s);
+                vec![$(v.$f),+]
+            }
             #[inline]
             fn v_field(v: &Self::V, i: usize) -> &X {
                 match i { $($i => &v.$f,)+ _ => panic!("harness: field index") }
